@@ -1,5 +1,5 @@
 \* C22 quick: all pairs at L = 8 over F_97, every shape at L = 16, seeded sets, long sequences.
 SPECIFICATION Spec
-CONSTANTS Fams = {"pair", "each", "rand", "long"}  NRand = 8  LongLens = {128, 256, 512}
+CONSTANTS Fams = {"pair", "each", "rand", "long"}  NRand = 8  AllAux = FALSE  LongLens = {128, 256, 512}
 INVARIANT Valid ValueInterp DocDivisor Emit
 CHECK_DEADLOCK FALSE
